@@ -37,7 +37,12 @@ def _strip_sections(toml, names):
 
 
 def expand_spans(text, repo, spans_log):
-    def repl(m):
+    """`//@@ span <file> NAME :: <begin anchor> ::: <end anchor>` defines a span of real text;
+    every `/*@@paste NAME*/` in the harness is replaced by that text (textual inclusion: the real statements
+    are compiled inside the harness function, which supplies their free names)."""
+    spans = {}
+
+    def define(m):
         rel, name, a, b = m.group(1), m.group(2), m.group(3).strip(), m.group(4).strip()
         src = open(os.path.join(repo, rel), encoding="utf-8").read()
         ra, rb = rs.anchor_regex(a), rs.anchor_regex(b)
@@ -49,7 +54,6 @@ def expand_spans(text, repo, spans_log):
             raise KaniSetupError("span %s: end anchor `%s` not found after begin in %s" % (name, b, rel))
         s, e = ha[0].start(), hb[0].end()
         body = src[s:e]
-        # brace balance check: the span must be a well-nested statement sequence
         depth = 0
         for t in rs.lex(body):
             if t.kind == "punct" and t.text in rs.OPEN:
@@ -60,13 +64,21 @@ def expand_spans(text, repo, spans_log):
                     raise KaniSetupError("span %s is not well nested" % name)
         if depth != 0:
             raise KaniSetupError("span %s is not well nested" % name)
+        spans[name] = body
         spans_log.append({"name": name, "file": rel, "repo_lines": [src.count("\n", 0, s) + 1, src.count("\n", 0, e) + 1]})
-        return "macro_rules! %s { () => { %s } }" % (name, body)
+        return "// span %s = %s lines %d-%d" % (name, rel, src.count("\n", 0, s) + 1, src.count("\n", 0, e) + 1)
 
-    return re.sub(r"^[ \t]*//@@\s+span\s+(\S+)\s+(\w+)\s*::\s*(.*?)\s*:::\s*(.*?)\s*$", repl, text, flags=re.M)
+    text = re.sub(r"^[ \t]*//@@\s+span\s+(\S+)\s+(\w+)\s*::\s*(.*?)\s*:::\s*(.*?)\s*$", define, text, flags=re.M)
+
+    def paste(m):
+        if m.group(1) not in spans:
+            raise KaniSetupError("paste of undefined span %s" % m.group(1))
+        return spans[m.group(1)]
+
+    return re.sub(r"/\*@@paste\s+(\w+)\s*\*/", paste, text)
 
 
-def prepare(repo, harness_files, scratch_parent=None):
+def prepare(repo, harness_files, scratch_parent=None, for_tests=False):
     """harness_files: list of paths to *.kani.rs files. Returns (scratch_dir, info)."""
     parent = scratch_parent or os.environ.get("VERIF_SCRATCH") or tempfile.gettempdir()
     scratch = tempfile.mkdtemp(prefix="llgv-kani-", dir=parent)
@@ -86,7 +98,13 @@ def prepare(repo, harness_files, scratch_parent=None):
             f.write("[net]\noffline = true\n")
         # parser manifest: no dev-deps / benches, rlib only
         pm = os.path.join(scratch, "parser", "Cargo.toml")
-        t = _strip_sections(open(pm).read(), {"dev-dependencies", "bench", "build-dependencies"})
+        orig = open(pm).read()
+        t = _strip_sections(orig, {"dev-dependencies", "bench", "build-dependencies"})
+        if for_tests:
+            # the crate's own unit tests (compiled together with the appended replay module) need `regex`
+            m = re.search(r'(?m)^regex\s*=.*$', orig)
+            if m:
+                t += "\n[dev-dependencies]\n" + m.group(0) + "\n"
         t = re.sub(r'crate-type\s*=\s*\[[^\]]*\]', 'crate-type = ["rlib"]', t)
         t = re.sub(r'^cbindgen.*$', '', t, flags=re.M)
         t = re.sub(r'^generate-header.*$', '', t, flags=re.M)
@@ -175,7 +193,9 @@ def parse_output(out):
 
 def run(scratch, crate, harnesses, extra_flags=(), timeout=1800, jobs=8, mem_gb=24, log=None):
     """Run cargo kani for the listed harnesses (exact names) in one invocation. Returns (results, raw_output, wall_s, timed_out)."""
-    cmd = ["cargo", "kani", "-p", crate, "--output-format", "terse", "-j", str(jobs)]
+    cmd = ["cargo", "kani", "-p", crate, "--output-format", "terse"]
+    if jobs and jobs > 1 and not any("concrete-playback" in f for f in extra_flags):
+        cmd += ["-j", str(jobs)]
     for h in harnesses:
         cmd += ["--harness", h]
     cmd += ["--exact"] if False else []
